@@ -2,6 +2,7 @@
    Only statements, each closed by an existing lemma, and their assumptions. *)
 From Coq Require Import List Bool Arith NArith ZArith Sorting.Sorted Sorting.Permutation.
 From Coq Require Import Strings.String.
+From LLIR Require Model.GoEval Proofs.NatsortRefinement Lib.Bytes.
 From LLIR Require Import Lib.Bytes Model.Natsort Model.Assemble Gen.Printers Model.GoEval.
 From LLIR Require Import Proofs.NatsortProofs Proofs.NatsortNumeric Proofs.AssembleProofs Proofs.ObserverProofs.
 Import ListNotations.
@@ -96,3 +97,12 @@ Example C20_example_order :
   less (bytes_of_string "abc12") (bytes_of_string "abc012") = true /\
   less (bytes_of_string "abc012") (bytes_of_string "abc12") = false.
 Proof. vm_compute. repeat split. Qed.
+
+(* the tie by regeneration: natsort.Less and isdigit as they stand in internal/natsort/natsort.go (translated into
+   the table natsort_bodies of Gen/Printers.v on every run, with while loops, string indexing and slicing; run by
+   Model/GoEval.v, every loop bounded by 1 + len a + len b rounds, running out being a failure) compute exactly the
+   model's less, for all byte strings: the statements above about less are statements about the code *)
+Theorem C20_generated_less_is_the_model : forall a b : Bytes.bytes,
+  NatsortRefinement.run_less a b = GoEval.Ok (GoEval.VBool (Natsort.less a b)).
+Proof. exact NatsortRefinement.generated_less_is_model. Qed.
+Print Assumptions C20_generated_less_is_the_model.
